@@ -136,6 +136,16 @@ def fns_by_sig(ctx, inputs_pred, output_pred, crate=VISITOR_CRATE):
     return out
 
 
+def _mentions_line_break(b):
+    """the text cleaner is the &str -> String function that deals with line breaks (loop or fold, whichever way it is written)"""
+    for n in walk(b["body"]):
+        if n.get("k") == "Lit" and n.get("lit") in ("char", "str") and isinstance(n.get("v"), str) and ("\n" in n["v"] or "\r" in n["v"]):
+            return True
+        if n.get("k") == "MethodCall" and n["method"] == "lines":
+            return True
+    return False
+
+
 def role(ctx, name):
     """Resolve a role to exactly one HIR body or None. Roles are defined by type signature."""
     key = ("role", name)
@@ -167,12 +177,12 @@ def role(ctx, name):
     elif name == "injector":
         cands = fns_by_sig(ctx, lambda i: len(i) >= 1 and i[0] == "&mut %sCallExpr" % A, lambda o: o == "()")
     elif name == "wrapper":
-        cands = fns_by_sig(ctx, lambda i: len(i) == 4 and i[1] == "alloc::vec::Vec<core::option::Option<%sExprOrSpread>>" % A and "SlotFlag" in i[2], lambda o: o == A + "Expr")
+        cands = fns_by_sig(ctx, lambda i: len(i) == 4 and "alloc::vec::Vec<core::option::Option<%sExprOrSpread>>" % A in i and any("SlotFlag" in x for x in i), lambda o: o == A + "Expr")
     elif name == "dc_pred":
         cands = fns_by_sig(ctx, lambda i: len(i) == 2 and i[1] == "&%sCallExpr" % A, lambda o: o == "bool")
     elif name == "text_cleaner":
         cands = fns_by_sig(ctx, lambda i: i == ["&str"], lambda o: o == "alloc::string::String")
-        cands = [b for b in cands if any(n.get("k") == "Loop" for n in walk(b["body"]))]
+        cands = [b for b in cands if _mentions_line_break(b)]
     elif name == "dedupe":
         cands = fns_by_sig(ctx, lambda i: i == ["alloc::vec::Vec<%sPropOrSpread>" % A], lambda o: o == "alloc::vec::Vec<%sPropOrSpread>" % A)
     elif name == "is_constant":
@@ -214,7 +224,7 @@ def role(ctx, name):
         cands = [b for b in cands if has(b) == (name == "fragment_pred")]
     elif name == "first_lower":
         cands = fns_by_sig(ctx, lambda i: i == ["&str"], lambda o: o == "alloc::string::String")
-        cands = [b for b in cands if not any(n.get("k") == "Loop" for n in walk(b["body"]))]
+        cands = [b for b in cands if not _mentions_line_break(b)]
     elif name == "member_to_expr":
         cands = fns_by_sig(ctx, lambda i: i == ["&%sJSXMemberExpr" % A], lambda o: o == A + "Expr")
     elif name == "v_model_parser":
